@@ -161,15 +161,20 @@ class LiveModel:
             if p.variant_of(res) != ("Some",):
                 continue
             found += 1
-            tested = False
-            for a in p.atoms:
-                if a[0] == "bool" and a[1][0] == "call" and a[1][1] in self.alive_fns:
-                    pi = self.alive_param.get(a[1][1], 1)
-                    arg = a[1][2][pi - 1] if len(a[1][2]) >= pi else None
-                    if arg is not None and any(strip_site(c) == strip_site(res) for c in root_calls(arg)):
-                        tested = True
-            if not tested:
-                return False, "the found entry is used without the liveness predicate (%s)" % p.show()
+            # a predicate that *returns* the liveness answer (`let alive = e.is_alive(c); drop(e); alive`) decides on it
+            # just as one that branches on it: judge each outcome of a symbolic bool result
+            from sym import bool_outcomes
+            outcomes = [at for at, r_ in bool_outcomes(p)] if f.rec.get("ret") == "bool" else [p.atoms]
+            for atoms in outcomes:
+                tested = False
+                for a in atoms:
+                    if a[0] == "bool" and a[1][0] == "call" and a[1][1] in self.alive_fns:
+                        pi = self.alive_param.get(a[1][1], 1)
+                        arg = a[1][2][pi - 1] if len(a[1][2]) >= pi else None
+                        if arg is not None and any(strip_site(c) == strip_site(res) for c in root_calls(arg)):
+                            tested = True
+                if not tested:
+                    return False, "the found entry is used without the liveness predicate (%s)" % p.show()
         if found:
             return True, "%d symbolic path(s) on which the entry was found, each tests liveness of that entry" % found
         return False, "the found entry is used without the liveness predicate"
